@@ -6,7 +6,8 @@ import random
 
 from harness import project as pj
 
-POOL = ["a", "ab", "a_b", "b", "ba", "c", "abc", "d", "aa", "core", "util", "utils", "m1", "m", "axpy", "apy"]
+POOL = ["a", "ab", "a_b", "b", "ba", "c", "abc", "d", "aa", "core", "util", "utils", "m1", "m", "axpy", "apy",
+        "r2", "rx", "r_core"]          # the last three start with the root directory's name "r"
 ODD = ["a+b", "c(d", "e-f", "g$", "h[1]"]          # legal file/dir names with regex metacharacters; never imported
 EXTERNALS = [["os"], ["os", "path"], ["xlib"], ["xlib", "sub"], ["xlib", "sub", "deep"], ["logging", "handlers"],
              ["ab"], ["a_b", "c"], ["rr", "x"], ["r2"], ["abx", "y"]]
@@ -47,6 +48,7 @@ def random_project(rng: random.Random, root="r", max_depth=4, n_dirs=None, n_fil
     importable = [m for m in modules if not any(ch in c for c in m for ch in "+($[-")]
     slots = pj.usable_slots()
     stmts = []
+    rel_dirs = set()
     n_stmts = n_stmts if n_stmts is not None else rng.randint(0, 3 * max(1, len(pyfiles)))
     for _ in range(n_stmts if pyfiles else 0):
         f = rng.choice(pyfiles)
@@ -81,6 +83,21 @@ def random_project(rng: random.Random, root="r", max_depth=4, n_dirs=None, n_fil
                     st = {"form": "from", "level": level, "module": rest, "names": [rng.choice(["helper", "*"])]}
             else:
                 st = {"form": "from", "level": level, "module": [], "names": [rng.choice(["helper", "Thing"])]}
+        if rel_abs and kind > 0.85:                        # absolute name written relative to a directory's parent
+            cands = [d for d in dirs if len(d) >= 2 and any(m[:len(d)] == list(d) for m in importable)]
+            if cands:
+                d = rng.choice(cands)
+                inside = [m for m in importable if m[:len(d)] == list(d)]
+                srcs = [x for x in pyfiles if x[:len(d)] == list(d)]
+                if srcs:
+                    f = rng.choice(srcs)
+                    t = rng.choice(inside)
+                    rel = t[len(d) - 1:]
+                    if len(rel) >= 2 and rng.random() < 0.5:
+                        st = {"form": "from", "level": 0, "module": rel[:-1], "names": [rel[-1]]}
+                    else:
+                        st = {"form": "import", "level": 0, "module": rel, "names": []}
+                    rel_dirs.add(tuple(d))
         if st is None:
             continue
         if "*" in st["names"]:
@@ -88,7 +105,8 @@ def random_project(rng: random.Random, root="r", max_depth=4, n_dirs=None, n_fil
         st.update({"file": list(f), "pos": pos, "alias": rng.random() < 0.2,
                    "grp": (rng.randint(0, 2) if st["form"] == "import" and rng.random() < 0.4 else None)})
         stmts.append(st)
-    return {"root": root, "dirs": [list(d) for d in dirs], "files": files, "stmts": stmts}
+    return {"root": root, "dirs": [list(d) for d in dirs], "files": files, "stmts": stmts,
+            "rel_dirs": [list(d) for d in sorted(rel_dirs)]}
 
 
 def sub_dirs(project):
